@@ -1218,6 +1218,15 @@ def mk_call(fn, args=(), kwargs=()):
         n_ = _replicate_len(args[0])
         if n_ is not None:
             return n_
+        ca_ = args[0].single_atom()
+        if ca_ is not None and ca_.kind == 'comp' and ca_.args[0] == 'list' and len(ca_.args[2]) == 1:
+            # len([E(x) for x in IT]) (no filter) is len(IT)
+            g_ = ca_.args[2][0].single_atom()
+            if g_ is not None and g_.kind == 'tuple' and len(g_.args) == 1:
+                ia_ = g_.args[0].single_atom()
+                if ia_ is not None and ia_.kind == 'call' and ia_.args[0] == 'range' and len(ia_.args[1]) == 1 and not ia_.args[2]:
+                    return ia_.args[1][0]
+                return mk_call('len', [g_.args[0]])
     if fn == 'len' and len(args) == 1 and not kwargs and isinstance(args[0], Term) and (
             args[0].single_atom() is None or (args[0].single_atom().kind == 'call' and args[0].single_atom().args[0] in (
                 'concatenate', 'zeros', 'empty', 'ones', 'full', 'reshape'))):
@@ -1450,8 +1459,10 @@ def mk_sub(base, idx):
         ga_ = at.args[2][0].single_atom()
         ia3_ = idx.single_atom()
         pc_ = idx.const()
+        vid0_ = at.args[3] + ':0'
+        uses_idx_ = any(x.kind == 'idx' and x.args == (vid0_,) for x in all_atoms(at.args[1]).values())
         if ga_ is not None and ga_.kind == 'tuple' and len(ga_.args) == 1 and (ia3_ is None or ia3_.kind not in ('slice', 'tuple')) \
-                and (pc_ is None or pc_ >= 0) and not _isnone(idx):
+                and (pc_ is None or pc_ >= 0 or not uses_idx_) and not _isnone(idx):
             vid_ = at.args[3] + ':0'
             pos_ = idx
 
